@@ -80,36 +80,15 @@ def main():
     os.makedirs(cdir, exist_ok=True)
     extract.ensure_driver()
     base_hash = extract.input_hash("lib")
-    scratch = tempfile.mkdtemp(prefix="ppg-corpus-")
-    jobs, skipped = [], []
+    sys.path.insert(0, os.path.join(V, "analysis"))
+    import selftest
     t0 = time.time()
+    scratch = tempfile.mkdtemp(prefix="ppg-corpus-")
     try:
-        base = os.path.join(scratch, "repo")
-        subprocess.check_call(["rsync", "-a", "--exclude", "target", "--exclude", ".git", REPO + "/", base + "/"])
-        for (name, kind, patch) in items:
-            ph = hashlib.sha256(open(patch, "rb").read()).hexdigest()[:16]
-            fp = os.path.join(cdir, "%s-%s-%s.json" % (name, base_hash, ph))
-            if not os.path.isfile(fp):
-                shutil.rmtree(os.path.join(base, "src"), ignore_errors=True)
-                shutil.copytree(os.path.join(REPO, "src"), os.path.join(base, "src"))
-                r = subprocess.run(["git", "apply", "--unsafe-paths", "--directory", base, patch], cwd="/", capture_output=True, text=True)
-                if r.returncode != 0:
-                    r = subprocess.run(["patch", "-p1", "-s", "-d", base, "-i", patch], capture_output=True, text=True)
-                    if r.returncode != 0:
-                        skipped.append((name, "patch does not apply"))
-                        continue
-                try:
-                    path, key, dt, cached = extract.extract("lib", repo=base)
-                except Exception as e:
-                    skipped.append((name, "does not build: %s" % str(e)[:100]))
-                    continue
-                shutil.copy(path, fp)
-                try:
-                    os.remove(path)
-                except OSError:
-                    pass
-            jobs.append((name, kind, fp))
-        extract.REPO = REPO
+        have, skipped = selftest.extract_many([(n_, p_) for (n_, k_, p_) in items], REPO, workers=12)
+        kinds_ = dict((n_, k_) for (n_, k_, p_) in items)
+        jobs = [(n_, kinds_[n_], fp_) for (n_, fp_) in have]
+        base_hash = extract.input_hash("lib")
         print("extracted %d item(s) in %.0fs, analysing ..." % (len(jobs), time.time() - t0), flush=True)
         ctx = multiprocessing.get_context("fork")
         with ctx.Pool(min(16, max(1, len(jobs)))) as pool:
